@@ -62,7 +62,7 @@ def main():
                 det[p] = new
         out["silent"] = not det
         out["reports"] = det
-        json.dump(out, open(os.path.join(sd, "detect.json"), "w"), indent=1)
+        json.dump(out, open(os.path.join(sd, "detect.json" if not os.environ.get("JAWK_ONLY_PROPS") else "detect-only.json"), "w"), indent=1)
         print("%-12s %-8s %s %s" % (sid, "silent" if not det else "ALARM", out.get("suite", ""),
                                     {p: sorted({h.split(" ")[0] for h in v}) for p, v in det.items()}), flush=True)
         for p, v in det.items():
